@@ -350,6 +350,68 @@ def data_history(job):
         return None, {"kind": "data", "job": [idx, ver, kex, role, list(opts), pre, term], "crash": traceback.format_exc()}
 
 
+def sibling_history(job):
+    """connection A (full handshake) stays open while connection B resumes A's session and then dies; A is closed in
+    order afterwards: the shared session stays dead.  Events are those of connection A's endpoint `role`."""
+    from ..endpoints import Pair, cred, settings, _read_gen, TLSConnection
+    from ..wire import socket_pair
+    from tlslite.api import SessionCache
+    idx, ver, role, how = job
+    try:
+        v = (3, ver)
+        a = Pair("c17sib-%d" % idx)
+        ch, key = cred("rsa")
+        cache = SessionCache()
+        cs = settings(minVersion=v, maxVersion=v)
+        ss = settings(minVersion=v, maxVersion=v)
+        st, co, so = a.handshake(ckw=dict(settings=cs), skw=dict(certChain=ch, privateKey=key, settings=ss, sessionCache=cache))
+        eut = a.c if role == "c" else a.s
+        ev = [{"ev": "CFG", "closeSocket": True, "ignoreAbrupt": False}]
+        ev.append(call_event("handshake", "ok", co if role == "c" else so, eut))
+        info = {"kind": "sibling", "job": [idx, ver, role, how]}
+        if not (co.ok and so.ok):
+            info["problem"] = "first handshake failed"
+            return ev, info
+        # connection B on its own wire, same session object / same cache
+        b = Pair.__new__(Pair)
+        b.csock, b.ssock, b.c2s, b.s2c = socket_pair()
+        b.pipes = [b.c2s, b.s2c]
+        b.c, b.s = TLSConnection(b.csock), TLSConnection(b.ssock)
+        st, co2, so2 = b.handshake(ckw=dict(settings=cs, session=a.c.session),
+                                   skw=dict(certChain=ch, privateKey=key, settings=ss, sessionCache=cache))
+        if not (co2.ok and so2.ok and b.c.resumed and b.s.resumed):
+            info["problem"] = "second connection did not resume: %s / %s" % (co2.describe(), so2.describe())
+            return ev, info
+        # B dies: transport cut (both ends notice) or a corrupted record (fatal alert)
+        if how == "eof":
+            for q in b.pipes:
+                q.transfer()
+                q.eof = True
+            b.read("s", 10, 1)
+            b.read("c", 10, 1)
+        else:
+            b.op("c", b.c.writeAsync(b"payload"))
+            for q in b.pipes:
+                q.transfer()
+            if b.c2s.buf:
+                b.c2s.buf[-1] ^= 0x01
+            b.read("s", 10, 7)
+            b.read("c", 10, 1)
+        closed, sess = proj(eut)
+        ev.append({"ev": "SIB", "sess": sess})
+        # A ends in order: the peer closes, the endpoint under test reads the close_notify
+        pname = "s" if role == "c" else "c"
+        a.close(pname)
+        o = a.op(role, _read_gen(eut, None, 1), max_steps=5000)
+        ev.append(call_event("read", "close_notify", o, eut, n=len(o.value or b"")))
+        o = a.op(role, eut.closeAsync(), max_steps=2000)
+        ev.append(call_event("close", "ok", o, eut))
+        return ev, info
+    except BaseException:
+        import traceback
+        return None, {"kind": "sibling", "job": [idx, ver, role, how], "crash": traceback.format_exc()}
+
+
 def validate(rep, traces, label):
     from concurrent.futures import ThreadPoolExecutor
     n = len(traces)
@@ -429,8 +491,12 @@ def run(tier):
                         idx += 1
     with Pool(16) as pool:
         res2 = pool.map(data_history, djobs, chunksize=8)
+    sjobs = [(i, ver, role, how) for i, (ver, role, how) in enumerate(
+        (v_, r_, h_) for v_ in (1, 3) for r_ in ("c", "s") for h_ in ("eof", "fatal"))]
+    with Pool(8) as pool:
+        res3 = pool.map(sibling_history, sjobs)
     traces, infos = [], []
-    for ev, info in res1 + res2:
+    for ev, info in res1 + res2 + res3:
         if ev is None:
             rep.machinery_errors.append("case crashed: %s" % info.get("crash", "")[-600:])
             continue
@@ -444,7 +510,10 @@ def run(tier):
         if i in rejected or info.get("problem"):
             k = rejected.get(i)
             bad = ev[k] if (k is not None and k < len(ev)) else None
-            if info["kind"] == "hsfault":
+            if info["kind"] == "sibling":
+                j = info["job"]
+                key = {"scenario": "sibling", "ver": FL.VNAME[j[1]], "role": j[2], "how": j[3]}
+            elif info["kind"] == "hsfault":
                 j = info["job"]
                 key = {"scenario": "handshake-fault", "flavour": FL.fname(flavs[j[0]]), "role": j[1],
                        "fault": "%s@%s#%d" % (j[4], j[2], j[3]), "opts": "cs=%s,ia=%s" % tuple(j[5])}
